@@ -13,9 +13,9 @@ Model of node selection (C21), statement by statement:
   (parameter `listed`), the nodes of the pod (every pod when `podname = ""`) that carry the
   requested labels, without down (bypassed or unavailable) nodes unless `all`.  With `podname = ""`
   the Go code iterates `GetAllPods` and lists each pod; the model lists the nodes of every pod
-  directly — the same thing under the store invariant that a node's pod exists (`AddNode` refuses
-  an unknown pod, `RemovePod` refuses a pod that still has nodes); the harness only builds such
-  stores.
+  directly; `filterNodesIter` lists pod by pod as the code does, and the two agree when every
+  node's pod is among the pods (`AddNode` refuses an unknown pod, `RemovePod` refuses a pod that
+  still has nodes): theorem `C21.filter_allpods_equiv`.
 
 Go `slices.Sort`/`sort.Strings` on strings has a unique result (total order, equal strings
 are indistinguishable); `sort.SliceStable` is a stable sort: both are modelled by the stable
@@ -86,6 +86,14 @@ def listable (nf : NodeFilter) (n : Node) : Bool :=
 
 def getNodesByPod (st : List Node) (nf : NodeFilter) : List Node := st.filter (listable nf)
 
+/-- `GetNodesByPod` as written: with a pod name the nodes under that pod's key prefix; without one,
+    `GetAllPods` and then the nodes of each pod in turn -/
+def podNodes (st : List Node) (nf : NodeFilter) (pd : String) : List Node :=
+  st.filter fun n => n.pod == pd && (labelsFilter n.labels nf.labels && (nf.all || !n.isDown))
+
+def getNodesByPodIter (pods : List String) (st : List Node) (nf : NodeFilter) : List Node :=
+  if nf.podname == "" then pods.flatMap (podNodes st nf) else podNodes st nf nf.podname
+
 /-- `sort.SliceStable(ns, func(i, j) { return ns[i].Name < ns[j].Name })` -/
 def sortByName (ns : List Node) : List Node := isortBy (fun a b => decide (a.name ≤ b.name)) ns
 
@@ -119,6 +127,10 @@ def filterNodesFrom (get : String → Option Node) (listed : List Node) (nf : No
 
 def filterNodes (st : List Node) (nf : NodeFilter) : Outcome (List Node) :=
   filterNodesFrom (getNode st) (getNodesByPod st nf) nf
+
+/-- `filterNodes` with the pod listing done pod by pod -/
+def filterNodesIter (pods : List String) (st : List Node) (nf : NodeFilter) : Outcome (List Node) :=
+  filterNodesFrom (getNode st) (getNodesByPodIter pods st nf) nf
 
 /-! ### Specification (decidable; evaluated by the oracle on the implementation's output) -/
 
